@@ -189,6 +189,8 @@ def signal_spec(draw, classes=CLASSES, nmin=0, nmax=300, dtypes=None, max_traili
                 if k:
                     spec[key] = dict(spec[key], k=k)
         spec["str_kind"] = draw(st.sampled_from(["built", "npstr"]))
+    if draw(st.integers(0, 11)) == 0:
+        spec["sub"] = True  # an instance of a user-defined subclass of the library class (results derived from it are of that subclass)
     if with_meta:
         spec["meta"] = draw(metas())
     kind = draw(st.sampled_from(list(data_kinds)))
@@ -374,12 +376,43 @@ def build(spec, data=None, chunks=None):
 
     if _PINNED and data is None and chunks is None:
         return _PINNED.pop()
+    cls = getattr(pb, spec["cls"])
+    if spec.get("sub"):
+        cls = user_subclass(cls)
     x = mk_data(spec) if data is None else data
     if chunks is not None:
         import dask.array as da
 
         x = da.from_array(x, chunks=chunks)
-    return getattr(pb, spec["cls"])(x, **sig_kwargs(spec))
+    return cls(x, **sig_kwargs(spec))
+
+
+_SUBCLASSES = {}
+
+
+def _describe(self):
+    return "%d samples" % len(self)
+
+
+def user_subclass(cls):
+    """what a user of the library may well write: `class MySignal(pb.BasebandSignal): ...` with a method of their own.  The classes live in
+    this module's namespace (defined at import, below) so that instances can be pickled into worker processes."""
+    if cls not in _SUBCLASSES:
+        name = "My" + cls.__name__
+        sub = type(name, (cls,), {"__module__": __name__, "__qualname__": name, "describe": _describe})
+        globals()[name] = sub
+        _SUBCLASSES[cls] = sub
+    return _SUBCLASSES[cls]
+
+
+def _define_user_subclasses():
+    import pulsarbat as pb
+
+    for name in CLASSES:
+        user_subclass(getattr(pb, name))
+
+
+_define_user_subclasses()
 
 
 # ---------------------------------------------------------------------------------------------
